@@ -4,3 +4,12 @@ from importlib import util as import_util
 def has_import(module: str) -> bool:
     has_module = import_util.find_spec(module) is not None
     return has_module
+
+
+def path_exists(path) -> bool:
+    """`path.exists()`, answering False when the operating system refuses the name
+    (e.g. a file name that is too long) instead of raising."""
+    try:
+        return path.exists()
+    except OSError:
+        return False
